@@ -843,7 +843,7 @@ fn corpus(p: Prop) -> Vec<(SCase, LenStyle)> {
 /// that state), then re-labelled via the short detour s->w->u; on its second expansion the edge u->v
 /// is not improved (a 2000 s right-turn delay / a restricted turn), so v keeps the entry computed from
 /// u's earlier label, and the returned route s->w->u->v->t carries that stale state.
-fn stale_link_witness(turn_restriction: bool) -> SCase {
+pub fn stale_link_witness(turn_restriction: bool) -> SCase {
     // metres north of t: s 7000, w 6000, u 5000, v 5200
     let lat = |m: f64| (39.0 + m / 111194.93) as f32;
     SCase {
